@@ -16,7 +16,9 @@ import (
 	"os"
 	"path/filepath"
 	"sort"
+	"strconv"
 	"strings"
+	"unicode"
 
 	"helm.sh/helm/v4/pkg/action"
 	chart "helm.sh/helm/v4/pkg/chart/v2"
@@ -44,7 +46,7 @@ func init() {
 			"nil, empty list, empty map and empty string are the same value of an optional metadata field",
 			".helmignore rule alphabet: literals, '*', '?', leading '/', trailing '/' (also both on one rule, and leading '/' with a glob), backslash-escaped literals (plain, anchored, below a directory, escaped leading '#'), comment, blank line - at most two rules per file; negation, character classes, a file name containing a backslash and '**' are not generated; the loader's built-in rule templates/.?* is part of the reference matcher",
 			"a Save/Package that returns an error must leave no file below its destination, whatever made it fail after the archive file was created (generated: a nested chart with an invalid name, attached in memory because the loader refuses it; a schema file that is not JSON)",
-			"invalid names are ../x, a/b and the empty string, invalid versions 1.x and the empty string, as the property lists them; the names '.' and '..' are counted as invalid too (they relocate the archive entries like ../x does) and are reported under keys of their own",
+			"invalid names are ../x, a/b and the empty string, invalid versions 1.x and the empty string, as the property lists them; a name is judged as Helm uses it, i.e. after non-printable characters (control, zero-width, BOM, soft hyphen) are dropped, so names that collapse to '', '.', '..' or ../x are invalid too (8 such names, in-memory through Save and on disk through Package); the names '.' and '..' are counted as invalid too (they relocate the archive entries like ../x does) and are reported under keys of their own",
 		},
 		RequiredFloors: []string{"roundtrip-equal:save", "roundtrip-equal:savedir", "roundtrip-equal:package", "dir-vs-archive-equal", "ignored-file-kept-out-of-archive",
 			"ignored-by-directory-rule", "rule-matched-nothing-extra", "input-rejected", "dep-tree-depth-2", "apiversion-v1", "lock-compared", "schema-compared", "bom-seen", "invalid-rejected:save", "invalid-rejected:package",
@@ -626,13 +628,33 @@ func replay(c *core.Ctx, data json.RawMessage) []core.Violation {
 
 // ---------- invalid names and versions ----------
 
+// usedName is the name as Helm uses it: Metadata.Validate maps white space to
+// ' ' and drops every other non-printable character (control characters,
+// zero-width and other format characters) before anything is written.
+func usedName(n string) string {
+	return strings.Map(func(r rune) rune {
+		switch {
+		case unicode.IsSpace(r):
+			return ' '
+		case unicode.IsPrint(r):
+			return r
+		}
+		return -1
+	}, n)
+}
+
 // isInvalidName: the names the property lists (empty, or containing a path
 // separator) plus the two path-special names "." and "..", which change the
-// location of the archive's entries exactly like ../x does (reported under
-// their own keys).
+// location of the archive's entries exactly like ../x does - judged on the
+// name as it is used, so "..\x01" and ".\u200b" are invalid like ".." and ".".
 func isInvalidName(n string) bool {
+	n = usedName(n)
 	return n == "" || n == "." || n == ".." || strings.ContainsAny(n, "/")
 }
+
+// collapsingNames only become invalid once their non-printable characters are dropped.
+var collapsingNames = []string{"..\x01", "\x01.\x02.", ".\u200b", "\ufeff..", ".\x7f", "\u200b", "\x01\u00ad", "\u200b../x"}
+
 func isInvalidVersion(v string) bool {
 	return v == "" || v == "1.x"
 }
@@ -652,7 +674,7 @@ func evalInvalid(rd replayData) []found {
 	if err := os.MkdirAll(out, 0o755); err != nil {
 		panic(err)
 	}
-	tuple := fmt.Sprintf("name=%q,version=%q", rd.Name, rd.Version)
+	tuple := fmt.Sprintf("name=%+q,version=%q", rd.Name, rd.Version)
 	if rd.Override != "" {
 		tuple += fmt.Sprintf(",--version=%q", rd.Override)
 	}
@@ -688,11 +710,14 @@ func evalInvalid(rd replayData) []found {
 		shape += ",override=" + shapeOf(rd.Override)
 	}
 	if err == nil {
-		fs = append(fs, found{Key: core.SanitizeKey("invalid-packaged/" + rd.Entry + "/" + shape),
-			What: fmt.Sprintf("%s of a chart with %s succeeds (returned %q; files written: %v)", rd.Entry, tuple, strings.TrimPrefix(path, dir+"/"), left), Replay: rd})
+		what := fmt.Sprintf("%s of a chart with %s succeeds (returned %q; files written: %q)", rd.Entry, tuple, strings.TrimPrefix(path, dir+"/"), left)
+		if esc := escaping(path); len(esc) > 0 {
+			what += fmt.Sprintf("; archive entries outside the chart directory: %v", esc)
+		}
+		fs = append(fs, found{Key: core.SanitizeKey("invalid-packaged/" + rd.Entry + "/" + shape), What: what, Replay: rd})
 	} else if len(left) > 0 {
 		fs = append(fs, found{Key: core.SanitizeKey("invalid-leaves-archive/" + rd.Entry + "/" + shape),
-			What: fmt.Sprintf("%s of a chart with %s fails (%v) but leaves %v behind", rd.Entry, tuple, err, left), Replay: rd})
+			What: fmt.Sprintf("%s of a chart with %s fails (%v) but leaves %q behind", rd.Entry, tuple, err, left), Replay: rd})
 	}
 	return fs
 }
@@ -701,7 +726,28 @@ func shapeOf(s string) string {
 	if s == "" {
 		return "empty"
 	}
-	return s
+	// non-printable characters as ASCII escapes (plain names come out unchanged)
+	return strings.Trim(strconv.QuoteToASCII(s), `"`)
+}
+
+// escaping lists the archive entries that leave the chart's own directory.
+func escaping(path string) []string {
+	entries, err := readTgz(path)
+	if err != nil {
+		return nil
+	}
+	var out []string
+	for _, e := range entries {
+		segs := strings.Split(e.Name, "/")
+		bad := strings.HasPrefix(e.Name, "/") || len(segs) < 2 || segs[0] == "." || segs[0] == ""
+		for _, sg := range segs {
+			bad = bad || sg == ".."
+		}
+		if bad {
+			out = append(out, strconv.QuoteToASCII(e.Name))
+		}
+	}
+	return out
 }
 
 // ---------- exploration ----------
@@ -780,7 +826,11 @@ func run(c *core.Ctx) {
 	}
 
 	if c.Only == "" || c.Only == "invalid" {
-		names := []string{"base", "../x", "a/b", "", ".", ".."}
+		names := append([]string{"base", "../x", "a/b", "", ".", ".."}, collapsingNames...)
+		collapsing := map[string]bool{}
+		for _, n := range collapsingNames {
+			collapsing[n] = true
+		}
 		versions := []string{"0.1.0", "1.x", ""}
 		var devsets [][]string
 		devsets = append(devsets, nil)
@@ -802,6 +852,9 @@ func run(c *core.Ctx) {
 			}
 			for _, n := range names {
 				for _, v := range versions {
+					if collapsing[n] && v != "0.1.0" {
+						continue // these names meet the valid version only
+					}
 					for _, entry := range []string{"save", "package", "package-override"} {
 						rd := replayData{Mode: "invalid", Devs: ds, Name: n, Version: v, Entry: entry}
 						if entry == "package-override" {
@@ -816,11 +869,19 @@ func run(c *core.Ctx) {
 						if !c.NextMine() {
 							continue
 						}
-						canon := fmt.Sprintf("invalid|%v|%q|%q|%q|%s", ds, rd.Name, rd.Version, rd.Override, rd.Entry)
+						canon := fmt.Sprintf("invalid|%v|%+q|%q|%q|%s", ds, rd.Name, rd.Version, rd.Override, rd.Entry)
 						c.Mark(canon)
 						c.Distinct(canon)
 						c.Eval(1)
 						fs := evalInvalid(rd)
+						if len(fs) > 0 && len(ds) > 0 {
+							// report the plain baseline when it shows the same thing
+							rb := rd
+							rb.Devs = nil
+							if fb := evalInvalid(rb); len(fb) > 0 && fb[0].Key == fs[0].Key {
+								fs = fb
+							}
+						}
 						if len(fs) == 0 {
 							c.Outcome("invalid:refused-clean:" + rd.Entry)
 							c.Floor("invalid-rejected:" + rd.Entry)
